@@ -209,3 +209,231 @@ theorem C16_params_rejected (strategy : String) (minRate beta : PyNum ℝ) :
 
 /-! non-vacuity: tied distances with conflicting labels; the optimum accepts the tie group -/
 example : calibrate (.accuracy : Strategy Rat) [1, 1, 2] [true, false, true] = some 2 := by decide +kernel
+
+/-! ## the code's accuracy route refines the specification
+
+`calibrateAccCode` models what `calibrate_threshold(strategy='accuracy')` does after the tie repair:
+sort, cumulative counts, mask of realisable positions, first arg-max.  The threshold it stores
+classifies at least as many validation pairs correctly as ANY real threshold. -/
+
+theorem correctCount_split (s : List (ℝ × Bool)) (t : ℝ) (i : ℕ)
+    (h1 : ∀ p ∈ s.take i, p.1 ≤ t) (h2 : ∀ p ∈ s.drop i, ¬ p.1 ≤ t) :
+    correctCount s t = cumCorrect s i := by
+  unfold correctCount cumCorrect
+  conv_lhs => rw [← List.take_append_drop i s]
+  rw [List.filter_append, List.length_append]
+  congr 1
+  · congr 1
+    apply List.filter_congr
+    intro p hp
+    have := h1 p hp
+    simp [this]
+  · congr 1
+    apply List.filter_congr
+    intro p hp
+    have := h2 p hp
+    simp [this]
+
+theorem sorted_sortByDist (l : List (ℝ × Bool)) : (sortByDist l).Pairwise (fun a b => a.1 ≤ b.1) := by
+  have := List.pairwise_mergeSort (le := fun (a b : ℝ × Bool) => decide (a.1 ≤ b.1))
+    (by intro a b c hab hbc; simp only [decide_eq_true_eq] at *; exact le_trans hab hbc)
+    (by intro a b; simp only [Bool.or_eq_true, decide_eq_true_eq]; exact le_total _ _) l
+  unfold sortByDist
+  exact this.imp (by intro a b h; simpa using h)
+
+theorem correctCount_perm (l l' : List (ℝ × Bool)) (h : l.Perm l') (t : ℝ) : correctCount l t = correctCount l' t := by
+  unfold correctCount; exact (h.filter _).length_eq
+
+/-- in a sorted list the pairs accepted by a threshold form a prefix -/
+theorem prefix_of_sorted : ∀ (s : List (ℝ × Bool)), s.Pairwise (fun a b => a.1 ≤ b.1) → ∀ t : ℝ,
+    ∃ i, i ≤ s.length ∧ (∀ p ∈ s.take i, p.1 ≤ t) ∧ (∀ p ∈ s.drop i, ¬ p.1 ≤ t) := by
+  intro s
+  induction s with
+  | nil => intro _ t; exact ⟨0, le_refl _, by simp, by simp⟩
+  | cons a r ih =>
+    intro hs t
+    obtain ⟨har, hr⟩ := List.pairwise_cons.mp hs
+    by_cases hat : a.1 ≤ t
+    · obtain ⟨i, hi, h1, h2⟩ := ih hr t
+      refine ⟨i + 1, by simp; omega, ?_, ?_⟩
+      · intro p hp
+        simp only [List.take_succ_cons, List.mem_cons] at hp
+        rcases hp with rfl | hp
+        · exact hat
+        · exact h1 p hp
+      · intro p hp; simp only [List.drop_succ_cons] at hp; exact h2 p hp
+    · refine ⟨0, Nat.zero_le _, by simp, ?_⟩
+      intro p hp
+      simp only [List.drop_zero, List.mem_cons] at hp
+      rcases hp with rfl | hp
+      · exact hat
+      · intro hpt; exact hat (le_trans (har p hp) hpt)
+
+theorem getD_mem_take {s : List (ℝ × Bool)} {i : ℕ} (hi : 0 < i) (hn : i ≤ s.length) :
+    s.getD (i - 1) (0, true) ∈ s.take i := by
+  have h1 : i - 1 < s.length := by omega
+  rw [List.getD_eq_getElem?_getD, List.getElem?_eq_getElem h1]
+  simp only [Option.getD_some]
+  rw [List.mem_take_iff_getElem]
+  exact ⟨i - 1, by simp; omega, rfl⟩
+
+theorem getD_mem_drop {s : List (ℝ × Bool)} {i : ℕ} (hn : i < s.length) :
+    s.getD i (0, true) ∈ s.drop i := by
+  rw [List.getD_eq_getElem?_getD, List.getElem?_eq_getElem hn]
+  simp only [Option.getD_some]
+  rw [List.mem_drop_iff_getElem]
+  exact ⟨0, by simpa using hn, by simp⟩
+
+theorem realisablePos_iff (s : List (ℝ × Bool)) (i : ℕ) : realisablePos s i = true ↔
+    (i = 0 ∨ i = s.length ∨ ¬ ((s.getD (i - 1) (0, true)).1 ≤ (s.getD i (0, true)).1 ∧
+      (s.getD i (0, true)).1 ≤ (s.getD (i - 1) (0, true)).1)) := by
+  unfold realisablePos
+  rw [Bool.or_eq_true, Bool.or_eq_true, beq_iff_eq, beq_iff_eq, Bool.not_eq_true', Bool.and_eq_false_iff,
+    decide_eq_false_iff_not, decide_eq_false_iff_not, not_and_or, or_assoc]
+
+/-- every real threshold classifies like some realisable position of the scan -/
+theorem exists_realisable (s : List (ℝ × Bool)) (hs : s.Pairwise (fun a b => a.1 ≤ b.1)) (t : ℝ) :
+    ∃ i, i ≤ s.length ∧ realisablePos s i = true ∧ correctCount s t = cumCorrect s i := by
+  obtain ⟨i, hi, h1, h2⟩ := prefix_of_sorted s hs t
+  refine ⟨i, hi, ?_, correctCount_split s t i h1 h2⟩
+  rw [realisablePos_iff]
+  by_cases h0 : i = 0
+  · exact Or.inl h0
+  by_cases hn : i = s.length
+  · exact Or.inr (Or.inl hn)
+  have hlt : i < s.length := by omega
+  have ha := h1 _ (getD_mem_take (by omega) hi)
+  have hb := h2 _ (getD_mem_drop hlt)
+  have : ¬ (s.getD i (0, true)).1 ≤ (s.getD (i - 1) (0, true)).1 := fun h => hb (le_trans h ha)
+  exact Or.inr (Or.inr (fun h => this h.2))
+
+/-- at a realisable position the cumulative counts ARE the prediction counts of the stored threshold -/
+theorem cum_eq_correct (s : List (ℝ × Bool)) (hs : s.Pairwise (fun a b => a.1 ≤ b.1)) (i : ℕ) (hi : i ≤ s.length)
+    (hr : realisablePos s i = true) : correctCount s (thrAtPos s i) = cumCorrect s i := by
+  apply correctCount_split
+  · intro p hp
+    by_cases h0 : i = 0
+    · subst h0; simp at hp
+    · unfold thrAtPos; rw [if_neg h0]
+      rw [List.mem_take_iff_getElem] at hp
+      obtain ⟨j, hj, rfl⟩ := hp
+      have hj' : j < i := by simp at hj; omega
+      have h1 : i - 1 < s.length := by omega
+      rw [List.getD_eq_getElem?_getD, List.getElem?_eq_getElem h1]
+      simp only [Option.getD_some]
+      by_cases hje : j = i - 1
+      · subst hje; exact le_refl _
+      · exact (List.pairwise_iff_getElem.mp hs) j (i - 1) (by omega) h1 (by omega)
+  · intro p hp
+    by_cases h0 : i = 0
+    · subst h0
+      simp only [thrAtPos, if_true, List.drop_zero] at hp ⊢
+      have := rejectAll_lt (s.map (·.1)) p.1 (List.mem_map_of_mem hp)
+      exact not_le.mpr this
+    · by_cases hn : i = s.length
+      · subst hn; simp at hp
+      · have hlt : i < s.length := by omega
+        rw [realisablePos_iff] at hr
+        have h1 : i - 1 < s.length := by omega
+        replace hr := (hr.resolve_left h0).resolve_left hn
+        have hle : (s.getD (i - 1) (0, true)).1 ≤ (s.getD i (0, true)).1 := by
+          rw [List.getD_eq_getElem?_getD, List.getElem?_eq_getElem h1, List.getD_eq_getElem?_getD, List.getElem?_eq_getElem hlt]
+          exact (List.pairwise_iff_getElem.mp hs) (i - 1) i h1 hlt (by omega)
+        have hstrict : (s.getD (i - 1) (0, true)).1 < (s.getD i (0, true)).1 := lt_of_le_not_ge hle (fun h => hr ⟨hle, h⟩)
+        unfold thrAtPos; rw [if_neg h0]
+        rw [List.mem_drop_iff_getElem] at hp
+        obtain ⟨j, hj, rfl⟩ := hp
+        have : (s.getD i (0, true)).1 ≤ s[i + j].1 := by
+          rw [List.getD_eq_getElem?_getD, List.getElem?_eq_getElem hlt]
+          simp only [Option.getD_some]
+          by_cases hj0 : j = 0
+          · subst hj0; exact le_refl _
+          · exact (List.pairwise_iff_getElem.mp hs) i (i + j) hlt (by omega) (by omega)
+        exact not_le.mpr (lt_of_lt_of_le hstrict this)
+
+theorem argmaxPos_spec (f : ℕ → ℕ) (ok : ℕ → Bool) : ∀ n : ℕ,
+    (∀ b, argmaxPos f ok n = some b → b ≤ n ∧ ok b = true ∧ ∀ i, i ≤ n → ok i = true → f i ≤ f b) ∧
+    (argmaxPos f ok n = none → ∀ i, i ≤ n → ok i = false) := by
+  intro n
+  induction n with
+  | zero =>
+    unfold argmaxPos
+    by_cases h : ok 0 = true
+    · simp only [h, if_true]
+      refine ⟨?_, by simp⟩
+      intro b hb; cases hb
+      refine ⟨le_refl _, h, fun i hi hoki => ?_⟩
+      have : i = 0 := by omega
+      subst this; exact le_refl _
+    · have h' : ok 0 = false := by simpa using h
+      simp only [h', Bool.false_eq_true, if_false]
+      refine ⟨by simp, fun _ i hi => ?_⟩
+      have : i = 0 := by omega
+      subst this; exact h'
+  | succ n ih =>
+    obtain ⟨ih1, ih2⟩ := ih
+    unfold argmaxPos
+    cases hprev : argmaxPos f ok n with
+    | none =>
+      have hn := ih2 hprev
+      by_cases h : ok (n + 1) = true
+      · simp only [h, if_true]
+        refine ⟨?_, by simp⟩
+        intro b hb; cases hb
+        refine ⟨le_refl _, h, fun i hi hoki => ?_⟩
+        by_cases hin : i ≤ n
+        · have := hn i hin; rw [this] at hoki; cases hoki
+        · have : i = n + 1 := by omega
+          subst this; exact le_refl _
+      · have h' : ok (n + 1) = false := by simpa using h
+        simp only [h', Bool.false_eq_true, if_false]
+        refine ⟨by simp, fun _ i hi => ?_⟩
+        by_cases hin : i ≤ n
+        · exact hn i hin
+        · have : i = n + 1 := by omega
+          subst this; exact h'
+    | some b =>
+      obtain ⟨hb1, hb2, hb3⟩ := ih1 b hprev
+      by_cases hc : (ok (n + 1) && decide (f b < f (n + 1))) = true
+      · simp only [hc, if_true]
+        refine ⟨?_, by simp⟩
+        intro b' hb'; cases hb'
+        simp only [Bool.and_eq_true, decide_eq_true_eq] at hc
+        refine ⟨le_refl _, hc.1, fun i hi hoki => ?_⟩
+        by_cases hin : i ≤ n
+        · exact le_trans (hb3 i hin hoki) hc.2.le
+        · have : i = n + 1 := by omega
+          subst this; exact le_refl _
+      · simp only [hc, Bool.false_eq_true, if_false]
+        refine ⟨?_, by simp⟩
+        intro b' hb'; cases hb'
+        refine ⟨by omega, hb2, fun i hi hoki => ?_⟩
+        by_cases hin : i ≤ n
+        · exact hb3 i hin hoki
+        · have : i = n + 1 := by omega
+          subst this
+          simp only [Bool.and_eq_true, decide_eq_true_eq, not_and, not_lt] at hc
+          exact hc hoki
+
+/-- **the code's accuracy calibration is optimal**: the threshold it stores classifies at least as many
+validation pairs correctly as any real threshold — ties, duplicated pairs with conflicting labels and
+zero distances included -/
+theorem C16_code_accuracy_optimal (l : List (ℝ × Bool)) :
+    ∃ thr, calibrateAccCode l = some thr ∧ ∀ t : ℝ, correctCount l t ≤ correctCount l thr := by
+  unfold calibrateAccCode
+  set s := sortByDist l with hsdef
+  have hs := sorted_sortByDist l
+  have hperm : l.Perm s := (List.mergeSort_perm l _).symm
+  obtain ⟨sp1, sp2⟩ := argmaxPos_spec (cumCorrect s) (realisablePos s) s.length
+  cases hres : argmaxPos (cumCorrect s) (realisablePos s) s.length with
+  | none =>
+    have := sp2 hres 0 (Nat.zero_le _)
+    simp [realisablePos] at this
+  | some b =>
+    obtain ⟨hb1, hb2, hb3⟩ := sp1 b hres
+    refine ⟨thrAtPos s b, by simp [hres], ?_⟩
+    intro t
+    rw [correctCount_perm l s hperm t, correctCount_perm l s hperm (thrAtPos s b)]
+    obtain ⟨i, hi, hri, hci⟩ := exists_realisable s hs t
+    rw [hci, cum_eq_correct s hs b hb1 hb2]
+    exact hb3 i hi hri
